@@ -156,7 +156,7 @@ def s4_report(ctx):
     def no_props(caller, callee, depth):
         return default_policy(caller, callee, depth) and not callee.is_property
     sx = SymEx(ctx.M, policy=no_props)
-    ps = sx.run(fn)
+    ps = sx.run_entry(fn)
     ctx.paths_explored += len(ps)
     nps = normal(ps)
     if not ctx.require(len(nps) == 1 if len(nps) == 1 else None, 'C02.S4', 'portfolio_to_dict has one normal path', fn.site(), len(nps)):
